@@ -11,6 +11,7 @@ import MocModel.Drv.Gate
 import MocModel.Drv.Merge
 import MocModel.Drv.Router
 import MocModel.Drv.Sqlite
+import MocModel.Drv.Term
 open Moc.Drv
 
 def handlers : List (String × Handler) := [
@@ -27,7 +28,8 @@ def handlers : List (String × Handler) := [
   ("ws", GateD.handler),
   ("merge", MergeD.handler),
   ("router", RouterD.handler),
-  ("sqlite", SqliteD.handler)
+  ("sqlite", SqliteD.handler),
+  ("c13", TermD.handler)
 ]
 
 def main (args : List String) : IO UInt32 := do
